@@ -96,7 +96,7 @@ theorem generated_eq_model :
   decide
 
 /-- The field lists of `Ehdr/Phdr/Shdr/Sym/Rel/Rela/Dyn` as `elf.py` patches them, laid out by the
-    struct walk (`offset = align(offset)`, `offset += size`), are the offset tables of the ELF
+    struct walk (`offset = base + align(offset − base)`, `offset += size`), are the offset tables of the ELF
     specification, for both classes (byte order does not move fields). -/
 theorem elf_layouts (x64 : Bool) :
     layout identFields 0 = specIdent ∧
@@ -110,21 +110,20 @@ theorem elf_layouts (x64 : Bool) :
   ⟨layout_ident, layout_ehdr x64, layout_phdr x64, layout_shdr x64, layout_sym x64, layout_rel x64,
    layout_rela x64, layout_dyn x64⟩
 
-/-- the struct walk of `StructCore.unpack` at any base offset that is aligned for the structure
-    reads every field at `base +` its layout offset (this is what makes `elf_layouts` meaningful). -/
+/-- the struct walk of `StructCore.unpack` at *any* base offset (fields are aligned relative to the
+    start of the structure) reads every field at `base +` its layout offset — this is what makes
+    `elf_layouts` meaningful. -/
 theorem unpack_reads_layout (be : Bool) (fs : List RawField) (data : Bytes) (base : Nat)
-    (hs : ∀ f ∈ fs, f.count = 0) (hal : ∀ f ∈ fs, f.size ∣ base) (hin : base + layoutEnd fs 0 ≤ data.length) :
+    (hs : ∀ f ∈ fs, f.count = 0) (hin : base + layoutEnd fs 0 ≤ data.length) :
     structUnpack be fs data base = .ok (readLayout be (layout fs 0) data base) := by
   unfold structUnpack
-  have := unpackFields_aligned be fs data base 0 hal hin
-  rw [Nat.add_zero] at this
-  rw [this, readAt_eq_layout be fs data base 0 hs]
+  rw [unpackFields_aligned be fs data base 0 hin, readAt_eq_layout be fs data base 0 hs]
   rfl
 
 /-! ## ELF parsing -/
 
-/-- For every well-formed image (`ElfWF`: magic, header and both tables inside the file and naturally
-    aligned for the class, section-name string table valid) the constructor's header fields, program
+/-- For every well-formed image (`ElfWF`: magic, header and both tables inside the file at any
+    position, section-name string table valid) the constructor's header fields, program
     headers, section headers, section names, class and byte order are those of the reference reader.
     Partial: `ElfWF.ph_known` excludes images with a program header whose `p_type` is not in amoco's
     constant table — the code drops those (`keepPhdr`), see known finding `C14:elf:phdr-dropped`. -/
@@ -171,11 +170,11 @@ theorem elf_object_eq_ref_partial (env : ElfEnv) (data : Bytes) (h : ElfWF env d
 theorem elf_symtab_entries (be x64 : Bool) (S : Rec) (bytes : Bytes)
     (hent : fget S "sh_entsize" ≠ 0) (hmod : fget S "sh_size" % fget S "sh_entsize" = 0)
     (hbig : fget S "sh_size" / fget S "sh_entsize" ≤ bigTable)
-    (hal : elfA x64 ∣ fget S "sh_entsize") (hne : bytes ≠ [])
+    (hne : bytes ≠ [])
     (hin : ∀ i, i < fget S "sh_size" / fget S "sh_entsize" → i * fget S "sh_entsize" + symSize x64 ≤ bytes.length) :
     readEntries be (symFields x64) S bytes =
       .ok ((refTable be (specSym x64) bytes (fget S "sh_size" / fget S "sh_entsize") 0 (fget S "sh_entsize")).map some) :=
-  readEntries_sym be x64 S bytes hent hmod hbig hal hne hin
+  readEntries_sym be x64 S bytes hent hmod hbig hne hin
 
 /-- address → section and address → file offset follow the file's mapping: with a section table,
     `getinfo` returns the *last* `SHT_PROGBITS` section whose `[sh_addr, sh_addr+sh_size)` holds the
@@ -215,10 +214,8 @@ example : ElfWF { knownPT := [0, 1, 2, 3], knownSHT := [] } tinyElf where
   len := by decide
   magic0 := by decide
   magic := by decide
-  ph_al := by decide
   ph_in := by decide
   ph_known := by decide
-  sh_al := by decide
   sh_in := by decide
   strndx_pos := by decide
   strndx_lt := by decide
